@@ -5,6 +5,7 @@ evaluated on the read-back graph (decision-graph semantics; term reconstruction)
 -/
 import Rsbdd.Driver.CliCases
 import Rsbdd.Model.Dot
+import Rsbdd.Model.DotBdd
 
 namespace Rsbdd
 namespace Driver
@@ -75,9 +76,68 @@ def readGraph (g : RGraph) (varOfLabel : String → Option Nat) (omitted : Optio
 def dupFree (xs : List String) : Bool :=
   xs.zipIdx.all (fun (x, i) => !((xs.take i).contains x))
 
-/-- `bdd|pdump|root id|names (id=hexname,…)|nodesA|edgesA|nodesT|edgesT|nodesF|edgesF` -/
+def parseAddrs (s : String) : Option (List (Nat × Nat)) :=
+  if s.isEmpty then some [] else (s.splitOn ",").mapM (fun e => match e.splitOn ":" with
+    | [n, a] => match n.toNat?, unhexNat a with
+      | some n, some a => some (n, a)
+      | _, _ => none
+    | _ => none)
+where
+  unhexNat (a : String) : Option Nat :=
+    a.toList.foldl (fun acc c => match acc, DotText.hexVal c with
+      | some v, some d => some (v * 16 + d)
+      | _, _ => none) (some 0)
+
+/-- the real DOT text of one export against the byte model (`DotText.bddDotText`) and the reader of Thm/C14D
+(`DotText.readDot`): the tie, and a disagreement of that reader with the harness's reading of the same text -/
+def dotTie (rawHex : String) (names : List (String × Nat)) (addrs : List (Nat × Nat)) (p : PBDD) (flt : Filter)
+    (ns : List (String × String)) (es : List (String × String × String)) : Option String × Option String :=
+  match unhex rawHex with
+  | none => (none, some "unreadable raw export field")
+  | some bytes =>
+    match String.fromUTF8? bytes with
+    | none => (some "dot-model.not-utf8", none)
+    | some s =>
+      let real := s.toList
+      let nameOf := fun (v : Nat) => match names.find? (fun x => x.2 == v) with
+        | some x => (match unhex x.1 with
+          | some b => (match String.fromUTF8? b with | some t => t.toList | none => ['?'])
+          | none => ['?'])
+        | none => ['?']
+      let addrOf := fun (n : Nat) => ((addrs.find? (fun x => x.1 == n)).map (·.2)).getD 0
+      let tie := if DotText.bddDotText nameOf addrOf p flt == real then "dot-model.identical" else "dot-model.differs"
+      match DotText.readDot real with
+      | none => (some "dot-reader.refused", none)
+      | some g =>
+        let rid := fun (id : List Char) =>
+          if id == "n_true".toList then "t" else if id == "n_false".toList then "f" else
+          match DotText.readHex (id.drop 4 ++ ['}']) 0 with
+          | some (a, _) => (match addrs.find? (fun x => x.2 == a) with | some x => toString x.1 | none => "UNKNOWN")
+          | none => "UNKNOWN"
+        let ns' := g.nodes.map (fun n => (rid n.1, hexOf (String.ofList n.2)))
+        let es' := g.edges.map (fun e => (rid e.1, rid e.2.1, hexOf (String.ofList e.2.2)))
+        if ns' == ns && es' == es then (some tie, none)
+        else (some tie, some "the two readers of the DOT text disagree")
+
+/-- `bdd|pdump|root id|names (id=hexname,…)|nodesA|edgesA|nodesT|edgesT|nodesF|edgesF[|addrs|rawA|rawT|rawF]` -/
 def handleC14Bdd (fields : List String) : Verdict :=
   match fields with
+  | [pdump, rootId, names, nA, eA, nT, eT, nF, eF, addrs, rawA, rawT, rawF] =>
+    let v := handleC14Bdd [pdump, rootId, names, nA, eA, nT, eT, nF, eF]
+    if v.bad || nA == "PANIC" || nT == "PANIC" || nF == "PANIC" then v else
+    match parsePBDD pdump, parseVarTable names, parseAddrs addrs, parseRNodes nA, parseREdges eA, parseRNodes nT,
+        parseREdges eT, parseRNodes nF, parseREdges eF with
+    | some p, some names, some addrs, some nA, some eA, some nT, some eT, some nF, some eF =>
+      let rA := dotTie rawA names addrs p .any nA eA
+      let rT := dotTie rawT names addrs p .true_ nT eT
+      let rF := dotTie rawF names addrs p .false_ nF eF
+      let ties := [rA.1, rT.1, rF.1].filterMap id
+      let tie := if ties.all (· == "dot-model.identical") then "dot-model.identical"
+        else (ties.find? (· != "dot-model.identical")).getD "dot-model.differs"
+      match orElse rA.2 (orElse rT.2 rF.2) with
+      | some m => { v with modelOk := false, modelOut := v.modelOut ++ " [" ++ m ++ "]", info := some tie }
+      | none => { v with info := some tie }
+    | _, _, _, _, _, _, _, _, _ => Verdict.badLine "unreadable bdd graph line (addresses)"
   | [pdump, rootId, names, nA, eA, nT, eT, nF, eF] =>
     if nA == "PANIC" || nT == "PANIC" || nF == "PANIC" then
       { modelOk := false, modelOut := "a DOT graph",
@@ -122,7 +182,7 @@ def handleC14Bdd (fields : List String) : Verdict :=
       { modelOk, modelOut := s!"{mA.1.length} nodes, {mA.2.length} edges", oracle := orElse o1 (orElse o2 (orElse o3 o4)),
         nontrivial := isChoiceP' p }
     | _, _, _, _, _, _, _, _ => Verdict.badLine "unreadable bdd graph line"
-  | _ => Verdict.badLine "bdd graph line needs nine fields"
+  | _ => Verdict.badLine "bdd graph line needs nine or thirteen fields"
 where
   isChoiceP' : PBDD → Bool
     | .node _ _ _ _ => true
